@@ -30,10 +30,21 @@ theorem terminated_left_only_by_revive (s s' : St) (h : machine.Reachable s) (u 
 /-- a unit being revived can only be re-created: nothing else applies to it -/
 theorem reviving_only_created (s s' : St) (e : Ev) (u : UnitId) (hl : s.loc u = .reviving) (hs : step s e = some s') :
     s'.loc u = .reviving ∨ (∃ p, e = .create u p) := by
-  cases e <;>
-    simp only [step, stepCreate, stepPush, stepPop, stepSetSt, stepRun, stepUserStart, stepUserEnd, stepCb, stepIncB,
+  cases e with
+  | push p v =>
+    simp only [step, stepPush] at hs
+    split at hs
+    · rename_i hg
+      cases hs
+      by_cases huv : v = u
+      · subst huv; rw [hl] at hg; simp [pushable] at hg
+      · left; have : ¬ u = v := fun h => huv h.symm
+        simp [upd, this, hl]
+    · cases hs
+  | _ =>
+    simp only [step, stepCreate, stepPop, stepSetSt, stepRun, stepUserStart, stepUserEnd, stepCb, stepIncB,
       stepDecB, stepResume, stepFinish, stepTerminate, stepFree, stepReqSet, stepReqClr, stepMigrate, stepJoinRet, stepXferB] at hs <;>
-    (repeat' (split at hs)) <;> (try cases hs) <;> simp_all [setLoc, upd, pushable] <;> grind
+    (repeat' (split at hs)) <;> (try cases hs) <;> simp_all [setLoc, upd] <;> grind
 
 /-- **life_transitions**: every store to a unit's state in a reachable state follows an edge of the automaton; in
 particular nothing is ever stored after TERMINATED (until a revive), BLOCKED is entered only from RUNNING, and
@@ -95,7 +106,7 @@ theorem terminated_is_frozen (s s' : St) (h : machine.Reachable s) (e : Ev) (hs 
   cases e <;>
     simp only [step, stepCreate, stepPush, stepPop, stepSetSt, stepRun, stepUserStart, stepUserEnd, stepCb, stepIncB,
       stepDecB, stepResume, stepFinish, stepTerminate, stepFree, stepReqSet, stepReqClr, stepMigrate, stepJoinRet, stepXferB] at hs <;>
-    (repeat' (split at hs)) <;> (try cases hs) <;> simp_all [setLoc, upd, pushable] <;> grind
+    (repeat' (split at hs)) <;> (try cases hs) <;> simp_all [setLoc, upd, pushable, isCb] <;> grind
 
 /-- non-vacuity: a named unit terminates, is joined, revived, and runs once more -/
 example :
